@@ -3,6 +3,7 @@ package samlsim
 import (
 	"bytes"
 	"compress/flate"
+	"crypto/ecdsa"
 	"encoding/base64"
 	"fmt"
 	"io"
@@ -15,6 +16,7 @@ import (
 	"github.com/beevik/etree"
 	"github.com/crewjam/saml"
 	"github.com/crewjam/saml/samlsp"
+	"github.com/golang-jwt/jwt/v4"
 )
 
 // Shared world for the middleware profiles (C16 tokens, C17 flows): real samlsp.Middleware
@@ -285,7 +287,9 @@ func mwUsers() []mwUser {
 		{NameID: "alice", Index: "si-alice", Attrs: []AttrSpec{{Name: "urn:oid:0.9.2342.19200300.100.1.1", Friendly: "uid", Values: []string{"zquid0qz"}}, {Name: "groups", Values: []string{"zqg0aqz", "zqg0bqz"}}, {Name: "groups", Values: []string{"zqg0cqz"}}}},
 		{NameID: "bob@example.com", Index: "si-bob", Attrs: []AttrSpec{{Name: "urn:oid:0.9.2342.19200300.100.1.1", Friendly: "uid", Values: []string{"zquid1qz"}}, {Name: "role", Friendly: "role", Values: []string{"admin"}}}},
 		{NoNameID: true, Index: "si-anon", Attrs: []AttrSpec{{Name: "urn:oid:0.9.2342.19200300.100.1.1", Friendly: "uid", Values: []string{"zquid2qz"}}}},
-		{NameID: "carol", Index: "si-carol"},
+		{NameID: "carol", Index: "si-carol", Attrs: []AttrSpec{{Name: "role", Friendly: "role", Values: []string{"user"}}}},
+		{NameID: "dave", Index: "si-dave", Attrs: []AttrSpec{{Name: "role", Values: []string{"user", "admin"}}, {Name: "urn:x:other", Friendly: "other", Values: []string{"admin"}}}},
+		{NameID: "erin", Index: "si-erin"},
 	}
 }
 
@@ -329,4 +333,17 @@ func sameAttrs(a, b map[string][]string) bool {
 		}
 	}
 	return true
+}
+
+// resignJWT signs header.claims (both already base64url) with kp, using the algorithm matching kp's type.
+func resignJWT(header, claims string, kp KeyPair) string {
+	var m jwt.SigningMethod = jwt.SigningMethodRS256
+	if _, ok := kp.Key.(*ecdsa.PrivateKey); ok {
+		m = jwt.SigningMethodES256
+	}
+	sig, err := m.Sign(header+"."+claims, kp.Key)
+	if err != nil {
+		panic(err)
+	}
+	return header + "." + claims + "." + sig
 }
